@@ -604,3 +604,484 @@ def stream_rules(ck, fb):
                             ok = True
             (ck.ok if ok else lambda r_, w, t: ck.violate(r_, w, t, "S.write:%s" % f.pq))("S.write", f.loc(r), "%s: 'return %s' yields Ok only if ostream.good() holds at the return" % (f.name, estr(x)[:60]))
     ck.floor("writer_result_returns", nw, 1)
+
+
+# =============================================================================================== R / U / Q
+HKIND = {"OpenVolumeMesh::VH": "Vertex", "OpenVolumeMesh::EH": "Edge", "OpenVolumeMesh::HEH": "HalfEdge", "OpenVolumeMesh::FH": "Face", "OpenVolumeMesh::HFH": "HalfFace", "OpenVolumeMesh::CH": "Cell"}
+COUNTERS = {  # reader-side counters that bound a handle kind (verified to exist on every run); (name, needs factor 2)
+    "Vertex": [("n_verts_read_", False), ("n_vertices", False)],
+    "HalfEdge": [("n_edges_read_", True), ("n_halfedges", False)],
+    "HalfFace": [("n_faces_read_", True), ("n_halffaces", False)],
+}
+INT_TYPES_SIGNED = ("int", "long", "short", "long long", "signed char", "char")
+
+
+def strip_casts(e):
+    while True:
+        e = unwrap(e)
+        if isinstance(e, dict) and e.get("k") == "cast":
+            e = e["x"]
+        else:
+            return e
+
+
+def cmp_parts(c):
+    """(op, lhs, rhs) for a built-in or overloaded comparison"""
+    c = unwrap(c)
+    if not isinstance(c, dict):
+        return None
+    if c.get("k") == "bin" and c.get("op") in ("<", "<=", ">", ">=", "==", "!="):
+        return c["op"], c["l"], c["r"]
+    if c.get("k") == "call" and c.get("op") in ("<", "<=", ">", ">=", "==", "!="):
+        if c.get("r") is not None and len(c.get("a", [])) == 1:
+            return c["op"], c["r"], c["a"][0]
+        if len(c.get("a", [])) == 2:
+            return c["op"], c["a"][0], c["a"][1]
+    return None
+
+
+def facts_with_lambda(fb, f, b, depth=0):
+    out = list(f.facts(b))
+    if f.kind == "lambda" and depth < 5:
+        d = fb.lambda_def(f)
+        if d:
+            out += facts_with_lambda(fb, d[0], d[1], depth + 1)
+    return out
+
+
+def upper_bound_guard(facts, target):
+    """bounds B such that facts imply target < B (strict) ; returns list of (bound expr, cond text)"""
+    res = []
+    t = estr(strip_casts(target))
+    for c, pol, e in facts:
+        if not isinstance(pol, bool):
+            continue
+        p = cmp_parts(c)
+        if not p:
+            continue
+        op, l, r = p
+        ls, rs = estr(strip_casts(l)), estr(strip_casts(r))
+        if ls == t and ((op == ">=" and not pol) or (op == "<" and pol)):
+            res.append((r, estr(c)))
+        if rs == t and ((op == "<=" and not pol) or (op == ">" and pol)):
+            res.append((l, estr(c)))
+    return res
+
+
+def lower_bound_guard(facts, target):
+    t = estr(strip_casts(target))
+    for c, pol, e in facts:
+        if not isinstance(pol, bool):
+            continue
+        p = cmp_parts(c)
+        if p:
+            op, l, r = p
+            ls, rs = estr(strip_casts(l)), estr(strip_casts(r))
+            if ls == t and rs == "0" and ((op == "<" and not pol) or (op == ">=" and pol)):
+                return True
+        s = estr(c)
+        if "is_valid()" in s and t in s and pol is True:
+            return True
+    return False
+
+
+def expr_type(e):
+    e = strip_casts(e)
+    if isinstance(e, dict):
+        return e.get("t") or ""
+    return ""
+
+
+def range_rules(ck, fb):
+    ck.rule("R.handle", "in reader code every handle built from a decoded integer (from_unsigned, Handle(int), emplace_back(int) into a handle vector) is guarded by an upper-bound comparison of that very integer expression against the reader's counter of that kind (factor 2 for half-entities), and by a lower bound when the integer is signed")
+    ck.rule("R.index", "props_[i] and valence vectors are only indexed behind a bound check of the same index")
+    entries = reader_entries(fb)
+    pred = reachable(fb, entries)
+    # counters exist?
+    text_members = {fl["n"] for fl in fb.records.get(BFR, {"fields": []})["fields"]}
+    for kind, lst in COUNTERS.items():
+        if not any(nm in text_members for nm, _ in lst):
+            raise AnalysisBroken("R: no reader counter found for %s (expected one of %s)" % (kind, [n for n, _ in lst]))
+    n_sites = 0
+    canary = False
+    fns = [fb.fns[i] for i in pred] + [f for f in fb.fns.values() if "/verif/fixtures/" in f.file and f.has_cfg]
+    for f in fns:
+        if not ("/IO/" in f.file or "/FileManager/" in f.file or "/verif/fixtures/" in f.file):
+            continue
+        for n, parents, pos in iter_sites(f):
+            if pos[0] not in f.reach():
+                continue
+            arg = kind = None
+            k = n.get("k")
+            if k == "call" and n.get("pn", "").endswith("::from_unsigned") and n.get("a"):
+                kind = HKIND.get(n.get("cc", ""), None) or HKIND.get(n.get("t", ""))
+                arg = n["a"][0]
+            elif k == "ctor" and n.get("t") in HKIND and len(n.get("a", [])) == 1 and not n.get("copy") and not n.get("move"):
+                a0 = strip_casts(n["a"][0])
+                if isinstance(a0, dict) and a0.get("k") != "lit" and not (a0.get("t", "") in HKIND):
+                    kind, arg = HKIND[n["t"]], n["a"][0]
+            elif k == "call" and n.get("pn", "").split("::")[-1] == "emplace_back" and len(n.get("a", [])) == 1:
+                rt = n.get("rt", "")
+                for hk, kd in HKIND.items():
+                    if rt == "std::vector<%s>" % hk:
+                        a0 = strip_casts(n["a"][0])
+                        if isinstance(a0, dict) and a0.get("t", "") not in HKIND and a0.get("k") != "lit":
+                            kind, arg = kd, n["a"][0]
+            if arg is None or kind is None:
+                continue
+            a0 = strip_casts(arg)
+            if isinstance(a0, dict) and a0.get("k") == "lit":
+                continue
+            n_sites += 1
+            where = f.loc(n)
+            facts = facts_with_lambda(fb, f, pos[0])
+            what = "%s: %s handle from %s" % (f.pq.split("::")[-1], kind, estr(a0)[:40])
+            # audited instance: loop over a validated span
+            if kind == "Vertex" and "GeometryReaderT" in f.id:
+                ub = upper_bound_guard(facts, arg)
+                ok = any("first" in estr(b) and "count" in estr(b) for b, c in ub)
+                (ck.ok if ok else lambda r, w, t: ck.violate(r, w, t, "R.handle:%s:span" % f.pq))("R.handle", where, what + " is bounded by first+count of the span validated by validate_span (audited instance, V.span)")
+                continue
+            if kind not in COUNTERS:
+                ck.violate("R.handle", where, what + ": no counter is registered for this handle kind in reader code", "R.handle:%s:%s:kind" % (f.pq, kind))
+                continue
+            ub = upper_bound_guard(facts, arg)
+            good = None
+            for bnd, ctext in ub:
+                bt = estr(bnd)
+                for nm, need2 in COUNTERS[kind]:
+                    if nm in bt and (not need2 or "2 * " in bt or " * 2" in bt):
+                        good = ctext
+            fixture = "/verif/fixtures/" in f.file
+            if not good:
+                if fixture:
+                    canary = True
+                    continue
+                ck.violate("R.handle", where, what + " is not guarded by an upper-bound test of that same expression against the %s counter (guards on it: %s)" % (kind, [c for b, c in ub] or "none"), "R.handle:%s:%s" % (f.pq, kind))
+                continue
+            t = expr_type(arg).replace("const ", "")
+            signed = t in INT_TYPES_SIGNED
+            if signed and not lower_bound_guard(facts, arg):
+                if fixture:
+                    continue
+                ck.violate("R.handle", where, what + " has signed type %s and no lower-bound (>= 0) guard" % t, "R.handle:%s:%s:signed" % (f.pq, kind))
+                continue
+            if not fixture:
+                ck.ok("R.handle", where, what + " - guard " + good + (" (unsigned %s)" % t if not signed else ""))
+    ck.canary("canary_r (handle built from an unchecked decoded integer)", canary)
+    ck.analysed["handle_construction_sites"] = n_sites
+    ck.floor("handle_construction_sites", n_sites, 7)
+    # R.index
+    ni = 0
+    for f in [fb.fns[i] for i in pred]:
+        if f.cls != BFR and not (f.kind == "lambda" and "BinaryFileReader" in (f.d.get("lambda_parent") or "")):
+            continue
+        for n, parents, pos in iter_sites(f):
+            if n.get("k") != "idx" or pos[0] not in f.reach():
+                continue
+            b = unwrap(n["b"])
+            name = None
+            if isinstance(b, dict) and b.get("k") == "mem" and b.get("f") == "props_":
+                name = "props_"
+            elif isinstance(b, dict) and b.get("k") == "var" and b.get("t", "").replace("const ", "").startswith("std::vector<unsigned int>"):
+                name = b["n"]
+            if not name:
+                continue
+            ni += 1
+            facts = facts_with_lambda(fb, f, pos[0])
+            ub = upper_bound_guard(facts, n["i"])
+            ok = any(name in estr(bd) and "size()" in estr(bd) for bd, c in ub)
+            why = "bound check against %s.size()" % name
+            if not ok and name != "props_":
+                # audited: the valence vector is filled by read_n_ints(.., header.span.count) and indexed by i < header.span.count
+                ok = any("span.count" in estr(bd) for bd, c in ub)
+                why = "index bounded by header.span.count, the size established by read_n_ints (audited instance)"
+            (ck.ok if ok else lambda r, w, t: ck.violate(r, w, t, "R.index:%s:%s" % (f.pq, name)))("R.index", f.loc(n), "%s: %s[%s] - %s" % (f.pq.split("::")[-1], name, estr(n["i"])[:30], why))
+    ck.floor("reader_vector_index_sites", ni, 3)
+
+
+def result_rules(ck, fb):
+    ck.rule("U.result", "in reader code the handle returned by add_face/add_cell is tested for validity and a failed test fails the read (error state / return false / throw): later range checks compare against declared counts, so a silently rejected entity would leave in-range handles dangling")
+    entries = reader_entries(fb)
+    pred = reachable(fb, entries)
+    n = 0
+    for f in [fb.fns[i] for i in pred]:
+        if not ("/IO/" in f.file or "/FileManager/" in f.file):
+            continue
+        for b, i, c in f.nodes(("call",)):
+            nm = c.get("pn", "").split("::")[-1]
+            if nm not in ("add_face", "add_cell") or b not in f.reach():
+                continue
+            cc = c.get("cc", "")
+            if not (cc == TK or fb.derived_from(cc, TK)):
+                continue
+            n += 1
+            # is the call element referenced by an is_valid() test that guards a failure exit?
+            used = None
+            for bb, ii, t in f.nodes(("call",)):
+                if t.get("pn", "").split("::")[-1] == "is_valid" and t.get("r") is not None:
+                    r = t["r"]
+                    tree = f.resolve(r)
+                    if any(x.get("_at") == (b, i) for x in walk(tree) if isinstance(x, dict)):
+                        used = (bb, ii)
+                    rv = unwrap(tree)
+                    if isinstance(rv, dict) and rv.get("k") == "var":
+                        # variable initialised from this call
+                        for _, _, d in f.nodes(("decl",)):
+                            for v in d["vars"]:
+                                if v["id"] == rv["id"] and v.get("init") is not None and any(x.get("_at") == (b, i) for x in walk(f.resolve(v["init"])) if isinstance(x, dict)):
+                                    used = (bb, ii)
+            where = f.loc(c)
+            what = "%s: result of %s" % (f.pq.split("::")[-1][:40], nm)
+            if not used:
+                ck.violate("U.result", where, what + " is discarded", "U.result:%s:%s" % (f.pq, nm))
+                continue
+            # failing branch fails the read: a block guarded by is_valid() == false that sets an error state / returns false / throws
+            fails = False
+            for bb in f.reach():
+                for cnd, pol, e in f.facts(bb):
+                    if pol is False and any(x.get("_at") == used for x in walk(cnd) if isinstance(x, dict)) or (pol is False and "is_valid()" in estr(cnd) and e[0] == used[0]):
+                        for _, _, x in [(b2, i2, x2) for b2, i2, x2 in f.tops() if b2 == bb]:
+                            s = estr(x)
+                            if x.get("k") == "throw" or (x.get("k") == "ret" and (s.endswith("false") or "Invalid" in s or "Error" in s)) or ("state_ =" in s and "Error" in s):
+                                fails = True
+            (ck.ok if fails else lambda r, w, t: ck.violate(r, w, t, "U.result:%s:%s:fail" % (f.pq, nm)))("U.result", where, what + " is tested with is_valid() and an invalid handle fails the read")
+    ck.floor("reader_add_face_cell_sites", n, 4)
+
+
+def size_fact(f, b, name):
+    """a fact about name.size()/empty() holds at block b (loop-exit conditions do not count)"""
+    for c, pol, (B, k) in f.facts(b):
+        t = f.term(B)
+        if t and t["c"] in ("ForStmt", "WhileStmt", "DoStmt", "CXXForRangeStmt") and pol is False:
+            continue
+        s = estr(c)
+        if name + ".size()" in s or name + ".empty()" in s:
+            return True
+    return False
+
+
+def empty_sequence_rules(ck, fb):
+    ck.rule("Q.nonempty", "kernel functions reachable from the readers access front()/back()/[literal] of a sequence parameter only behind a test of its size (a file may declare a face or cell of valence 0)")
+    entries = reader_entries(fb)
+    pred = reachable(fb, entries)
+    n = 0
+    for f in [fb.fns[i] for i in pred]:
+        if not (f.cls and fb.derived_from(f.cls, TK)) or "/Core/Iterators" in f.file:
+            continue
+        params = {p["id"]: p for p in f.d["params"] if "std::vector<" in p["t"]}
+        if not params:
+            continue
+        for nd, parents, pos in iter_sites(f):
+            if pos[0] not in f.reach():
+                continue
+            tgt = None
+            if nd.get("k") == "call" and nd.get("pn", "").split("::")[-1] in ("front", "back") and nd.get("r") is not None:
+                r = unwrap(nd["r"])
+                if isinstance(r, dict) and r.get("k") == "var" and r.get("id") in params:
+                    tgt = (r, nd.get("pn").split("::")[-1] + "()")
+            elif nd.get("k") == "idx":
+                r = unwrap(nd["b"])
+                ix = strip_casts(nd["i"])
+                if isinstance(r, dict) and r.get("k") == "var" and r.get("id") in params and isinstance(ix, dict) and ix.get("k") == "lit":
+                    tgt = (r, "[%s]" % ix["v"])
+            if not tgt:
+                continue
+            n += 1
+            r, what = tgt
+            ok = size_fact(f, pos[0], r["n"])
+            why = "behind a test of %s's size" % r["n"]
+            if not ok and f.d.get("access") in ("private", "protected"):
+                # internal helper: every call site must pass a sequence whose size was tested
+                callers = [(g, b, i, c) for g, b, i, c in fb.callers(f.id) if g.has_cfg and b in g.reach()]
+                pi = [p["id"] for p in f.d["params"]].index(r["id"])
+                if callers:
+                    ok = True
+                    for g, b, i, c in callers:
+                        a = unwrap(g.resolve(c["a"][pi])) if pi < len(c.get("a", [])) else None
+                        if not (isinstance(a, dict) and a.get("k") == "var" and size_fact(g, b, a["n"])):
+                            ok = False
+                    why = "a private helper whose %d call site(s) pass a sequence of tested size" % len(callers)
+            (ck.ok if ok else lambda r_, w, t: ck.violate(r_, w, t, "Q.nonempty:%s:%s%s" % (f.pq, r["n"], what)))("Q.nonempty", f.loc(nd), "%s: %s%s is %s" % (f.diag.split("OpenVolumeMesh::")[-1][:60], r["n"], what, why))
+    ck.analysed["sequence_param_access_sites"] = n
+    ck.floor("sequence_param_access_sites", n, 4)
+
+
+# =============================================================================================== T / X
+STREAM_TESTS = ("good", "fail", "bad", "operator bool", "operator!")
+
+
+def loop_rules(ck, fb):
+    ck.rule("T.exit", "every loop in reader code has at least one robust exit: a counter compared with a loop-invariant bound, an iterator/range walk, a remaining_bytes() test (with input consumed in the body), or a stream test that includes the fail state; a loop whose only input-dependent exit is eof() spins forever once the stream has failed")
+    entries = reader_entries(fb)
+    pred = reachable(fb, entries)
+    n = 0
+    for f in [fb.fns[i] for i in pred]:
+        if not ("/IO/" in f.file or "/FileManager/" in f.file):
+            continue
+        for hdr, body, backs in f.loops():
+            n += 1
+            kinds = set()
+            descr = []
+            t = f.term(hdr)
+            if t and t["c"] == "CXXForRangeStmt":
+                kinds.add("range")
+            modified = set()
+            for b, i, x in f.nodes(("un", "asg", "call")):
+                if b not in body:
+                    continue
+                if x.get("k") == "un" and x["op"] in ("pre++", "post++", "pre--", "post--"):
+                    v = unwrap(f.resolve(x["x"]))
+                    if isinstance(v, dict) and v.get("k") == "var":
+                        modified.add(v["id"])
+                elif x.get("k") == "asg" and x["op"] in ("+=", "-="):
+                    v = unwrap(f.resolve(x["l"]))
+                    if isinstance(v, dict) and v.get("k") == "var":
+                        modified.add(v["id"])
+                elif x.get("k") == "call" and x.get("op") in ("++", "--") and x.get("r") is not None:
+                    v = unwrap(f.resolve(x["r"]))
+                    if isinstance(v, dict) and v.get("k") == "var":
+                        modified.add(v["id"])
+            for b in body:
+                ss = f.succ(b)
+                if len(ss) < 2:
+                    # return / break out of the body without condition is governed by an enclosing branch
+                    continue
+                tt = f.term(b)
+                if not tt or not tt.get("cond"):
+                    continue
+                if all((s in body) for s in ss if s is not None):
+                    continue
+                cond = f.resolve(tt["cond"])
+                s = estr(cond)
+                descr.append(s[:50])
+                vs = [x for x in walk(cond) if isinstance(x, dict) and x.get("k") == "var"]
+                calls = [x for x in walk(cond) if isinstance(x, dict) and x.get("k") == "call"]
+                names = {c.get("pn", "").split("::")[-1] for c in calls}
+                p = cmp_parts(cond)
+                if p and any(v["id"] in modified for v in vs):
+                    kinds.add("counter")
+                elif "remaining_bytes" in names:
+                    kinds.add("remaining_bytes")
+                elif names & set(STREAM_TESTS) and any("basic_ios" in c.get("pn", "") or "basic_istream" in c.get("pn", "") for c in calls):
+                    kinds.add("stream-state")
+                elif "eof" in names:
+                    kinds.add("eof-only")
+                elif "finished" in names or "valid" in names:
+                    kinds.add("iterator")
+                else:
+                    kinds.add("data")
+            robust = kinds & {"range", "counter", "remaining_bytes", "stream-state", "iterator"}
+            where = f.loc(t) if t else f.where
+            what = "%s: loop with exits [%s]" % (f.pq.split("::")[-1][:40], "; ".join(descr)[:120])
+            if robust:
+                ck.ok("T.exit", where, what + " has a robust exit (%s)" % ",".join(sorted(robust)))
+            else:
+                ck.violate("T.exit", where, what + " has no robust exit (kinds: %s)" % ",".join(sorted(kinds)) , "T.exit:%s:%s" % (f.pq, ",".join(sorted(kinds))))
+    ck.analysed["reader_loops"] = n
+    ck.floor("reader_loops", n, 25)
+
+
+STD_EXC = {"std::exception", "std::runtime_error", "std::logic_error", "std::out_of_range", "std::invalid_argument", "std::length_error", "std::bad_cast", "std::bad_alloc", "std::range_error", "std::overflow_error"}
+
+
+def catches(fb, handler, thrown):
+    h = handler.replace("const ", "").replace("&", "").strip()
+    if h == "...":
+        return True
+    if h == thrown:
+        return True
+    bases = set(fb.bases(thrown)) | ({thrown} & STD_EXC)
+    if h in bases:
+        return True
+    if h == "std::exception" and (bases & STD_EXC or thrown in STD_EXC):
+        return True
+    return False
+
+
+def protected_call(fb, f, n, thrown):
+    """the call node lies lexically inside a try block of f with a handler for `thrown`"""
+    ln = n.get("ln") if isinstance(n, dict) else None
+    if not ln:
+        return False
+    for t in f.d.get("trys", []):
+        if t["from"] <= ln <= t["to"] and any(catches(fb, c, thrown) for c in t["catches"]):
+            return True
+    return False
+
+
+def reachable_unprotected(fb, entries, thrown):
+    pred = {f.id: None for f in entries}
+    dq = deque(f.id for f in entries)
+    while dq:
+        fid = dq.popleft()
+        f = fb.fns[fid]
+        for b, i, n, tgt in fb.callees(f):
+            if tgt is None or not tgt.has_cfg or not repo_fn(tgt) or b not in f.reach():
+                continue
+            if protected_call(fb, f, n, thrown):
+                continue
+            if tgt.id not in pred:
+                pred[tgt.id] = (fid, f.loc(n))
+                dq.append(tgt.id)
+        for b, i, n in f.nodes(("lambda",)):
+            if protected_call(fb, f, n, thrown):
+                continue
+            u = n.get("u")
+            for g in fb.fns.values():
+                if g.kind == "lambda" and (g.d.get("lambda_base") == u or g.id == u) and g.id not in pred and g.has_cfg:
+                    pred[g.id] = (fid, f.loc(n))
+                    dq.append(g.id)
+    return pred
+
+
+def thrown_type(f, t):
+    x = unwrap(f.resolve(t.get("x")))
+    while isinstance(x, dict) and x.get("k") in ("cast",):
+        x = unwrap(x["x"])
+    if isinstance(x, dict) and x.get("k") == "ctor":
+        return x.get("t")
+    if isinstance(x, dict):
+        return x.get("t") or "?"
+    return "rethrow"
+
+
+def exception_rules(ck, fb):
+    ck.rule("X.escape", "no explicit throw of a non-allocation exception in repository code is reachable from FileManager::readStream/readFile or from the public BinaryFileReader members without passing through a try block that catches std::exception (lexical try regions from the AST, call paths from the resolved call graph)")
+    entries = [f for f in fb.fns.values() if f.has_cfg and repo_fn(f) and ((f.cls == FM and f.name in ("readStream", "readFile")) or (f.cls == BFR and f.d.get("access") == "public" and f.kind == "method"))]
+    if len(entries) < 6:
+        raise AnalysisBroken("X: reader entry points not found (%d)" % len(entries))
+    full = reachable(fb, entries)
+    throws = []
+    for fid in full:
+        f = fb.fns[fid]
+        for b, i, t in f.nodes(("throw",)):
+            if b in f.reach():
+                throws.append((f, t, thrown_type(f, t)))
+    n_thr_total = len(throws)
+    seen = set()
+    preds = {}
+    for f, t, ty in throws:
+        if ty == "rethrow":
+            continue
+        if ty not in preds:
+            preds[ty] = reachable_unprotected(fb, entries, ty)
+        pred = preds[ty]
+        if f.id not in pred:
+            continue
+        # thrown inside a local try that handles it
+        if protected_call(fb, f, t, ty):
+            continue
+        key = "X.escape:%s:%s" % (f.pq, ty.split("::")[-1])
+        if key in seen:
+            continue
+        seen.add(key)
+        ck.violate("X.escape", f.loc(t), "%s throws %s, reachable from a reader entry point without an enclosing handler for it" % (f.pq.split("OpenVolumeMesh::")[-1][:60], ty), key, detail={"chain": chain(fb, pred, f.id)})
+    pred = preds[next(iter(preds))] if preds else {}
+    ck.analysed["functions_reachable_from_readers"] = len(full)
+    ck.analysed["functions_reachable_outside_handlers"] = len(pred)
+    ck.analysed["throw_sites_in_reader_code"] = n_thr_total
+    ck.floor("functions_reachable_from_readers", len(full), 150)
+    ck.floor("throw_sites_in_reader_code", n_thr_total, 5)
+    if not seen:
+        ck.ok("X.escape", "reader call graphs", "%d throw sites in %d reader-reachable functions; none reachable outside a catch(std::exception&) region (%d functions reachable outside handlers)" % (n_thr_total, len(full), len(pred)))
